@@ -132,9 +132,9 @@ def run_t1(modules: list[str], keys: list[str] | None, prop: str, ctx, timeout_m
     reg = load_registry(modules)
     natives = load_natives(modules)
     if keys is None:
-        # every contract is verified by the check of its PRIMARY property (the first one it is tagged with); the checks of
-        # the other properties it serves only reference it (evidence: proved_under_other_checks)
-        keys = [k for k, c in reg.contracts.items() if c.properties and c.properties[0] == prop and not c.trusted]
+        # every contract is verified by the check of EVERY property it is tagged with (a change that breaks a property must be
+        # reported by that property's check, whichever other checks would also see it)
+        keys = [k for k, c in reg.contracts.items() if c.properties and prop in c.properties and not c.trusted]
     baseline = set()
     baseline_digest: dict = {}
     if os.path.exists(BASELINE_PATH):
@@ -149,7 +149,9 @@ def run_t1(modules: list[str], keys: list[str] | None, prop: str, ctx, timeout_m
     # budgets under load: a contract that was fully discharged on the baseline tree and now has UNDECIDED obligations is
     # verified once more on its own, after the pool has drained, with a 3x budget, before anything is reported
     for i, o in enumerate(outs):
-        if o["key"] in baseline and not o["error"] and 1 <= sum(1 for x in o["obligations"] if x["status"] != HELD and not x["canary"]) <= 2 and any(x["status"] == UNDECIDED and not x["canary"] for x in o["obligations"]):
+        # (only when the formulas are the ones discharged on the baseline tree: then the failure can only be a matter of
+        # budget; when the code or the contract changed, the restarts inside discharge() have already been spent)
+        if o["key"] in baseline and baseline_digest.get(o["key"]) == o.get("vc_digest") and not o["error"] and 1 <= sum(1 for x in o["obligations"] if x["status"] != HELD and not x["canary"]) <= 2 and any(x["status"] == UNDECIDED and not x["canary"] for x in o["obligations"]):
             t = tasks[i]
             with mpctx.Pool(1, maxtasksperchild=1) as p2:
                 outs[i] = p2.apply(_work, ((t[0], t[1], t[2], timeout_ms * 3, t[4], 0),))
